@@ -12,6 +12,7 @@ def need {α} (o : Option α) (what : String) : Except String α :=
 def parseOp (j : Json) : Except String (LOp Val × Bool) := do
   let op ← getStr j "op"
   match op with
+  | "persist" => return (.map id, false)          -- no user function: its stage is silenced by the caller
   | "map" => do let f ← need (mapFn (← getStr j "f")) "mapFn"; return (.map f, false)
   | "filter" => do let p ← need (predFn (← getStr j "f")) "predFn"; return (.filter p, false)
   | "flatMap" => do let f ← need (flatFn (← getStr j "f")) "flatFn"; return (.flatMap f, false)
@@ -33,18 +34,24 @@ def handle (j : Json) : Json := run do
   let parts ← partsJ.mapM fun p => do
     let arr ← (fromJson? p : Except String (Array Json))
     arr.toList.mapM Val.ofJson
-  let parsed ← (← getArr j "ops").mapM parseOp
+  let opsJ ← getArr j "ops"
+  let parsed ← opsJ.mapM parseOp
   let ops := parsed.map (·.1)
   let vo := parsed.map (·.2)
+  -- stages without a user function (persist / cache) log nothing
+  let silent : List Nat := opsJ.zipIdx.filterMap fun (o, i) =>
+    match o.getObjValAs? String "op" with | .ok "persist" => some i | _ => none
+  let keep := fun (evs : List (Ev Val)) => evs.filter fun e => !silent.contains e.stage
   let streams := parts.map fun p => build ops 0 (source p)
-  let full := streams.map pullAll
+  let full := streams.map fun s => let (e, v) := pullAll s; (keep e, v)
   let outCounts := full.map (·.2.length)
   let total := outCounts.sum
   if (full.any fun (_, vs) => vs.any hasErr) then throw "ill-typed pipeline"
   let fullJ := Json.arr (full.map fun (evs, _) => Json.arr (evs.map (evJson vo)).toArray).toArray
   match j.getObjValAs? Nat "take" with
   | .ok n =>
-    let (evs, vals) := takeChain n streams
+    let (evs0, vals) := takeChain n streams
+    let evs := keep evs0
     -- index of the partition containing the last returned element
     let returned := min n total
     let rec findLast (cs : List Nat) (acc i : Nat) : Nat :=
